@@ -8,7 +8,6 @@ Arguments N.leb : simpl never.
 Arguments N.ltb : simpl never.
 
 (* ---------------------------------------------------------------- table invariants (checked on the generated table in LicTable.v) *)
-Definition asciib (c : char) : bool := c <? 128.
 Definition entry_ok (e : str * str) : bool :=
   streq (fst e) (afold (snd e))          (* the key is the lower-cased id *)
   && forallb asciib (fst e) && forallb asciib (snd e)
@@ -18,38 +17,51 @@ Definition table_ok (lics excs : list (str * str)) : bool :=
   forallb entry_ok lics && forallb entry_ok excs && forallb (fun e => negb (is_opword (fst e))) excs
   && forallb (fun e => negb (prefixb licenseref_lc (fst (strip_plus (fst e))))) excs.     (* no exception id looks like a LicenseRef *)
 
-(* ---------------------------------------------------------------- lower() versus ASCII folding, on KELVIN-free text *)
+(* ---------------------------------------------------------------- lower() versus ASCII folding *)
+(* str.lower() agrees with ASCII folding as far as comparison with an ASCII word k goes, provided the text has no U+212A KELVIN SIGN
+   (lower() maps it to "k") or the word has no "k" *)
+Definition kfree (s : str) : Prop := ~ In 8490 s.
+Definition nok (k : str) : Prop := forallb (fun c => negb (c =? 107)) k = true.
 Lemma kfree_cons c r : kfree (c :: r) -> c <> 8490 /\ kfree r.
 Proof. unfold kfree. cbn [In]. intros H. split; intros K; apply H; auto. Qed.
 Lemma ascii_ne x n : asciib x = true -> 128 <= n -> (x =? n) = false.
 Proof. unfold asciib. intros H L. apply N.ltb_lt in H. apply N.eqb_neq. lia. Qed.
+Lemma ascii_kfree s : forallb asciib s = true -> kfree s.
+Proof. intros H K. rewrite forallb_forall in H. specialize (H _ K). discriminate. Qed.
+Lemma side_tl c r x k : kfree (c :: r) \/ nok (x :: k) -> kfree r \/ nok k.
+Proof.
+  intros [F|F]; [left; now apply kfree_cons in F|right]. unfold nok in *. cbn [forallb] in F. now apply andb_true_iff in F as [_ F].
+Qed.
 
-Lemma streq_lower_afold w : forall k, forallb asciib k = true -> kfree w -> streq k (lower w) = streq k (afold w).
+Lemma streq_lower_afold w : forall k, forallb asciib k = true -> kfree w \/ nok k -> streq k (lower w) = streq k (afold w).
 Proof.
   induction w as [|c r IH]; intros k K F; [reflexivity|].
-  apply kfree_cons in F as [Fc F].
   change (lower (c :: r)) with (lower_char c ++ lower r). change (afold (c :: r)) with (lc c :: afold r).
-  unfold lower_char, lc. destruct ((65 <=? c) && (c <=? 90)) eqn:E.
-  - cbn [app]. destruct k as [|x k]; [reflexivity|]. cbn [forallb] in K. apply andb_true_iff in K as [_ K]. cbn [streq]. now rewrite IH.
-  - destruct (c =? 304) eqn:E3.
-    + apply N.eqb_eq in E3. subst c. cbn [app]. destruct k as [|x k]; [reflexivity|].
-      cbn [forallb] in K. apply andb_true_iff in K as [Kx K]. cbn [streq].
-      rewrite (ascii_ne x 304 Kx) by lia. cbn [andb].
-      destruct k as [|y k]; [now rewrite andb_false_r|]. cbn [forallb] in K. apply andb_true_iff in K as [Ky K]. cbn [streq].
-      rewrite (ascii_ne y 775 Ky) by lia. now rewrite andb_false_r.
-    + destruct (c =? 8490) eqn:E4; [apply N.eqb_eq in E4; contradiction|].
-      cbn [app]. destruct k as [|x k]; [reflexivity|]. cbn [forallb] in K. apply andb_true_iff in K as [_ K]. cbn [streq]. now rewrite IH.
+  assert (STEP : forall x, streq k (x :: lower r) = streq k (x :: afold r)).
+  { intros x0. destruct k as [|x k]; [reflexivity|]. cbn [forallb] in K. apply andb_true_iff in K as [_ K]. cbn [streq].
+    rewrite IH; eauto using side_tl. }
+  unfold lower_char, lc. destruct ((65 <=? c) && (c <=? 90)) eqn:E; [apply STEP|].
+  destruct (c =? 304) eqn:E3.
+  - apply N.eqb_eq in E3. subst c. cbn [app]. destruct k as [|x k]; [reflexivity|].
+    cbn [forallb] in K. apply andb_true_iff in K as [Kx K]. cbn [streq].
+    rewrite (ascii_ne x 304 Kx) by lia. cbn [andb].
+    destruct k as [|y k]; [now rewrite andb_false_r|]. cbn [forallb] in K. apply andb_true_iff in K as [Ky K]. cbn [streq].
+    rewrite (ascii_ne y 775 Ky) by lia. now rewrite andb_false_r.
+  - destruct (c =? 8490) eqn:E4; [|apply STEP].
+    apply N.eqb_eq in E4. subst c. destruct F as [F|F]; [apply kfree_cons in F as [F _]; contradiction|].
+    cbn [app]. destruct k as [|x k]; [reflexivity|]. cbn [forallb] in K. apply andb_true_iff in K as [Kx K]. cbn [streq].
+    unfold nok in F. cbn [forallb] in F. apply andb_true_iff in F as [Fx _]. apply negb_true_iff in Fx.
+    rewrite Fx, (ascii_ne x 8490 Kx) by lia. reflexivity.
 Qed.
 (* startswith: "i" + U+0307 (the lower-casing of U+0130) starts with "i", so the prefix must not end in "i" *)
-Lemma prefixb_lower_afold w : forall k, forallb asciib k = true -> (last k 0 =? 105) = false -> kfree w ->
+Lemma prefixb_lower_afold w : forall k, forallb asciib k = true -> (last k 0 =? 105) = false -> kfree w \/ nok k ->
   prefixb k (lower w) = prefixb k (afold w).
 Proof.
   induction w as [|c r IH]; intros k K L F; [reflexivity|].
-  apply kfree_cons in F as [Fc F].
   change (lower (c :: r)) with (lower_char c ++ lower r). change (afold (c :: r)) with (lc c :: afold r).
   assert (STEP : forall x, prefixb k (x :: lower r) = prefixb k (x :: afold r)).
   { intros x0. destruct k as [|x k]; [reflexivity|]. cbn [forallb] in K. apply andb_true_iff in K as [_ K]. cbn [prefixb].
-    destruct k as [|y k]; [reflexivity|]. rewrite IH; auto. }
+    destruct k as [|y k]; [reflexivity|]. rewrite IH; eauto using side_tl. }
   unfold lower_char, lc. destruct ((65 <=? c) && (c <=? 90)) eqn:E; [apply STEP|].
   destruct (c =? 304) eqn:E3.
   - apply N.eqb_eq in E3. subst c. cbn [app]. destruct k as [|x k]; [reflexivity|].
@@ -59,8 +71,19 @@ Proof.
     + cbn [last] in L. now rewrite L.
     + cbn [forallb] in K. apply andb_true_iff in K as [Ky K]. cbn [prefixb].
       rewrite (ascii_ne y 775 Ky) by lia. now rewrite andb_false_r.
-  - destruct (c =? 8490) eqn:E4; [apply N.eqb_eq in E4; contradiction|]. apply STEP.
+  - destruct (c =? 8490) eqn:E4; [|apply STEP].
+    apply N.eqb_eq in E4. subst c. destruct F as [F|F]; [apply kfree_cons in F as [F _]; contradiction|].
+    cbn [app]. destruct k as [|x k]; [reflexivity|]. cbn [forallb] in K. apply andb_true_iff in K as [Kx K]. cbn [prefixb].
+    unfold nok in F. cbn [forallb] in F. apply andb_true_iff in F as [Fx _]. apply negb_true_iff in Fx.
+    rewrite Fx, (ascii_ne x 8490 Kx) by lia. reflexivity.
 Qed.
+Lemma lc_ascii c : asciib (lc c) = asciib c.
+Proof.
+  unfold lc, asciib. destruct ((65 <=? c) && (c <=? 90)) eqn:E; [|reflexivity].
+  apply andb_true_iff in E as [A B]. apply N.leb_le in A, B. transitivity true; [|symmetry]; apply N.ltb_lt; lia.
+Qed.
+Lemma afold_ascii w : forallb asciib (afold w) = forallb asciib w.
+Proof. induction w as [|c w IH]; [reflexivity|]. cbn [afold map forallb]. now rewrite lc_ascii, <- IH. Qed.
 
 (* ---------------------------------------------------------------- "+" suffix, slices, the LicenseRef regex *)
 Lemma last_is_app c0 x y : y <> [] -> last_is c0 (x ++ y) = last_is c0 y.
@@ -126,18 +149,18 @@ Proof.
 Qed.
 
 (* ---------------------------------------------------------------- token classes: lower() in the code, ASCII folding in the spec *)
-Lemma classify_code o : kfree o ->
+Lemma classify_code o :
   match classify o with
   | TOr _ => lower o = w_or | TAnd _ => lower o = w_and | TWith _ => lower o = w_with
   | TL _ => lower o = w_lp | TR _ => lower o = w_rp
   | TId _ w => w = o /\ is_opword (lower o) = false
   end.
 Proof.
-  intros F. unfold classify, ieq.
+  unfold classify, ieq.
   change (afold w_or) with w_or. change (afold w_and) with w_and. change (afold w_with) with w_with.
   change (afold w_lp) with w_lp. change (afold w_rp) with w_rp.
   rewrite !(streq_sym (afold o)).
-  rewrite <- !streq_lower_afold by (auto; reflexivity).
+  rewrite <- !streq_lower_afold by (try reflexivity; right; reflexivity).
   destruct (streq w_or (lower o)) eqn:E1; [symmetry; now apply streq_eq|].
   destruct (streq w_and (lower o)) eqn:E2; [symmetry; now apply streq_eq|].
   destruct (streq w_with (lower o)) eqn:E3; [symmetry; now apply streq_eq|].
@@ -200,7 +223,7 @@ Proof.
   cbn [forallb] in T. apply andb_true_iff in T as [Te T]. destruct (IH T) as [IH1 IH2].
   destruct (entry_ok_inv _ Te) as (K1 & K2 & _). cbn [fst snd] in *.
   unfold lookup, mem, find_id in *. cbn [find existsb map fst snd].
-  rewrite streq_lower_afold by assumption. unfold ieq. rewrite <- K1.
+  rewrite streq_lower_afold by (try assumption; now left). unfold ieq. rewrite <- K1.
   destruct (streq k (afold w)); [split; reflexivity|]. cbn [orb]. auto.
 Qed.
 Lemma find_id_in w ids id : find_id w ids = Some id -> In id ids /\ afold id = afold w.
@@ -212,6 +235,17 @@ Lemma table_entry tbl id : forallb entry_ok tbl = true -> In id (map snd tbl) ->
 Proof.
   intros T H. apply in_snd in H as (k & H). rewrite forallb_forall in T. destruct (entry_ok_inv _ (T _ H)) as (A & B & C & D & E).
   cbn [fst snd] in *. subst k. auto.
+Qed.
+(* TABLE lookup guarded by original_token.isascii(): the same search, for every token *)
+Lemma lookup_guard tbl orig w : forallb entry_ok tbl = true -> forallb asciib orig = forallb asciib w ->
+  (negb (mem (lower w) tbl) || negb (forallb asciib orig)) = negb (is_some (find_id w (map snd tbl))) /\
+  (forallb asciib orig = true -> lookup (lower w) tbl = find_id w (map snd tbl)).
+Proof.
+  intros T E. rewrite E. destruct (forallb asciib w) eqn:A.
+  - destruct (lookup_find tbl w T (ascii_kfree w A)) as [L1 L2]. rewrite L2, orb_false_r. auto.
+  - rewrite orb_true_r. split; [|discriminate]. destruct (find_id w (map snd tbl)) as [id|] eqn:F; [|reflexivity].
+    apply find_id_in in F as [I F]. destruct (table_entry tbl id T I) as (Ai & _).
+    rewrite <- afold_ascii, <- F, afold_ascii in A. congruence.
 Qed.
 Lemma exc_not_op w e : exc_canon excs w = Some e -> classify w = TId _ w.
 Proof.
@@ -260,46 +294,49 @@ Proof.
 Qed.
 
 (* one step of the final loop on a licence operand *)
-Lemma lic_step o nr al pairs : clean o -> kfree o -> hdW nr = false -> is_opword (lower o) = false ->
+Lemma lic_step o nr al pairs : clean o -> hdW nr = false -> is_opword (lower o) = false ->
   final_pass lics excs nr al ((o, lower o) :: pairs) =
   match lic_canon lics o with Some l => final_pass lics excs (l :: nr) true pairs | None => PErr end.
 Proof.
-  intros [N W] F H O. cbn [final_pass]. unfold hdW in H. rewrite H, O. cbv zeta.
+  intros [N W] H O. cbn [final_pass]. unfold hdW in H. rewrite H, O. cbv zeta.
   rewrite last_is_lower. unfold lic_canon, strip_plus.
   destruct (last_is 43 o) eqn:P.
   - apply last_is_split in P. set (core := removelast o) in *.
-    assert (Fc : kfree core) by (unfold kfree in *; intros K; apply F; rewrite P; apply in_or_app; now left).
     assert (E1 : removelast (lower o) = lower core) by (rewrite P, lower_app; cbn [lower flat_map lower_char app]; change (lower_char 43) with [43]; apply removelast_last).
-    rewrite E1. rewrite prefixb_lower_afold by (auto; reflexivity).
+    rewrite E1. rewrite prefixb_lower_afold by (try reflexivity; right; reflexivity).
     destruct (prefixb licenseref_lc (afold core)).
     + cbn [length]. rewrite firstn_removelast. fold core.
       rewrite ref_match_clean by (now apply forallb_removelast).
       destruct (forallb ref_char core); reflexivity.
-    + destruct (lookup_find lics core TOK_l Fc) as [L1 L2]. rewrite L1, L2.
-      destruct (find_id core (map snd lics)); reflexivity.
-  - rewrite prefixb_lower_afold by (auto; reflexivity).
+    + assert (EA : forallb asciib o = forallb asciib core) by (rewrite P, forallb_app; cbn [forallb]; change (asciib 43) with true; now rewrite !andb_true_r).
+      destruct (lookup_guard lics o core TOK_l EA) as [G L]. rewrite G.
+      destruct (find_id core (map snd lics)) as [id|] eqn:F; cbn [is_some negb]; [|reflexivity].
+      rewrite L; [reflexivity|]. cbn [is_some negb] in G. apply orb_false_iff in G as [_ G]. now apply negb_false_iff in G.
+  - rewrite prefixb_lower_afold by (try reflexivity; right; reflexivity).
     destruct (prefixb licenseref_lc (afold o)).
     + cbn [length]. rewrite Nat.sub_0_r, firstn_all. rewrite ref_match_clean by exact W.
       destruct (forallb ref_char o); reflexivity.
-    + destruct (lookup_find lics o TOK_l F) as [L1 L2]. rewrite L1, L2.
-      destruct (find_id o (map snd lics)) as [id|]; [now rewrite !app_nil_r|reflexivity].
+    + destruct (lookup_guard lics o o TOK_l eq_refl) as [G L]. rewrite G.
+      destruct (find_id o (map snd lics)) as [id|] eqn:F; cbn [is_some negb]; [|reflexivity].
+      rewrite L; [now rewrite !app_nil_r|]. cbn [is_some negb] in G. apply orb_false_iff in G as [_ G]. now apply negb_false_iff in G.
 Qed.
-Lemma exc_step o nr al pairs : kfree o -> hdW nr = true ->
+Lemma exc_step o nr al pairs : hdW nr = true ->
   final_pass lics excs nr al ((o, lower o) :: pairs) =
   match exc_canon excs o with Some e => final_pass lics excs (e :: nr) false pairs | None => PErr end.
 Proof.
-  intros F H. cbn [final_pass]. unfold hdW in H. rewrite H. unfold exc_canon.
-  destruct (lookup_find excs o TOK_e F) as [L1 L2]. rewrite L1, L2.
-  destruct (find_id o (map snd excs)); reflexivity.
+  intros H. cbn [final_pass]. unfold hdW in H. rewrite H. unfold exc_canon.
+  destruct (lookup_guard excs o o TOK_e eq_refl) as [G L]. rewrite G.
+  destruct (find_id o (map snd excs)) as [id|] eqn:F; cbn [is_some negb]; [|reflexivity].
+  rewrite L; [reflexivity|]. cbn [is_some negb] in G. apply orb_false_iff in G as [_ G]. now apply negb_false_iff in G.
 Qed.
 
-Lemma final_pass_spec os : forall nr al, Forall clean os -> Forall kfree os ->
+Lemma final_pass_spec os : forall nr al, Forall clean os ->
   final_pass lics excs nr al (combine os (map lower os)) =
   match pass2o (hdW nr) al os with Some out => POk (rev nr ++ out) | None => PErr end.
 Proof.
-  induction os as [|o r IH]; intros nr al C F.
+  induction os as [|o r IH]; intros nr al C.
   - cbn [map combine final_pass pass2o]. now rewrite app_nil_r.
-  - inversion C as [|? ? Co Cr]; inversion F as [|? ? Fo Fr]; subst.
+  - inversion C as [|? ? Co Cr]; subst.
     cbn [map combine pass2o].
     assert (OUT : forall x aw ll, hdW (x :: nr) = aw ->
               final_pass lics excs (x :: nr) ll (combine r (map lower r)) =
@@ -307,7 +344,7 @@ Proof.
               | Some out => POk (rev nr ++ out) | None => PErr end).
     { intros x aw ll <-. rewrite IH by assumption. destruct (pass2o (hdW (x :: nr)) ll r); [|reflexivity].
       cbn [rev]. now rewrite <- app_assoc. }
-    pose proof (classify_code o Fo) as K.
+    pose proof (classify_code o) as K.
     destruct (hdW nr) eqn:H.
     + rewrite exc_step by assumption.
       destruct (exc_canon excs o) as [e|] eqn:E.
@@ -347,13 +384,13 @@ Lemma skel_rp last r : skeleton last (w_rp :: r) =
   | _ => match skeleton (Some PR) r with Some l => Some (PR :: l) | None => None end
   end.
 Proof. destruct last as [[]|]; reflexivity. Qed.
-Lemma skeleton_spec os : forall last, Forall kfree os -> skeleton last (map lower os) = pass1 str last (map classify os).
+Lemma skeleton_spec os : forall last, skeleton last (map lower os) = pass1 str last (map classify os).
 Proof.
-  induction os as [|o r IH]; intros last F; [reflexivity|]. inversion F as [|? ? Fo Fr]; subst.
-  cbn [map]. pose proof (classify_code o Fo) as K. destruct (classify o); cbn [pass1].
-  - rewrite K, skel_or, IH by assumption. reflexivity.
-  - rewrite K, skel_and, IH by assumption. reflexivity.
-  - rewrite K, skel_with, IH by assumption. reflexivity.
+  induction os as [|o r IH]; intros last; [reflexivity|].
+  cbn [map]. pose proof (classify_code o) as K. destruct (classify o); cbn [pass1].
+  - rewrite K, skel_or, IH. reflexivity.
+  - rewrite K, skel_and, IH. reflexivity.
+  - rewrite K, skel_with, IH. reflexivity.
   - rewrite K, skel_lp. destruct last as [[]|]; try reflexivity; now rewrite IH.
   - rewrite K, skel_rp. destruct last as [[]|]; try reflexivity; now rewrite IH.
   - destruct K as [_ K]. rewrite skel_id, IH by assumption. reflexivity.
@@ -433,7 +470,7 @@ Qed.
 (* the function on tokens computes the specification *)
 Definition spec_toks (os : list str) : option (list str) :=
   if spdx_tokens_ok lics excs os then canon_tokens lics excs false os else None.
-Theorem canon_toks_spec os : Forall clean os -> Forall kfree os ->
+Theorem canon_toks_spec os : Forall clean os ->
   canon_toks os =
   match spec_toks os with
   | None => Err
@@ -441,9 +478,9 @@ Theorem canon_toks_spec os : Forall clean os -> Forall kfree os ->
                 else if nests_deeper_than limit_sure os then Limit (tight out) else Ok (tight out)
   end.
 Proof.
-  intros C F. unfold canon_toks, spec_toks, spdx_tokens_ok. cbv zeta.
+  intros C. unfold canon_toks, spec_toks, spdx_tokens_ok. cbv zeta.
   rewrite <- (C19_code_accepts_iff_spdx str). unfold code_ok.
-  rewrite skeleton_spec by assumption.
+  rewrite skeleton_spec.
   destruct (pass1 str None (map classify os)) as [ps|] eqn:P1; [|reflexivity].
   unfold py_eval, nests_deeper_than. rewrite !(pass1_exceeds _ _ _ _ _ P1).
   rewrite final_pass_spec by assumption. cbn [hdW]. rewrite <- pass2o_pass2.
@@ -458,29 +495,7 @@ Proof.
 Qed.
 
 (* ---------------------------------------------------------------- string level *)
-Lemma split_raw_incl s : forall w, In w (split_raw s) -> incl w s.
-Proof.
-  induction s as [|c t IH]; intros w H.
-  - cbn in H. destruct H as [<-|[]]. apply incl_refl.
-  - cbn [split_raw] in H. destruct (is_ws c).
-    + destruct H as [<-|H]; [intros x []|]. apply incl_tl. now apply IH.
-    + rewrite (split_raw_hdtl t) in H, IH. destruct H as [<-|H].
-      * intros x [<-|Hx]; [now left|]. right. apply (IH (hd [] (split_raw t))); [now left|exact Hx].
-      * apply incl_tl. apply IH. now right.
-Qed.
-Lemma pad_in c s : In c (pad s) -> c = 32 \/ In c s.
-Proof.
-  induction s as [|d s IH]; [intros []|]. change (pad (d :: s)) with (pad_char d ++ pad s). intros H. apply in_app_or in H as [H|H].
-  - unfold pad_char in H. destruct ((d =? 40) || (d =? 41)); cbn [In] in H; intuition (subst; auto using in_eq).
-  - destruct (IH H); [now left|right; now right].
-Qed.
-Lemma tokens_kfree s : kfree s -> Forall kfree (spdx_tokens s).
-Proof.
-  intros F. rewrite spdx_tokens_split. unfold split_ws. apply Forall_forall. intros w H. apply filter_In in H as [H _].
-  apply split_raw_incl in H. intros K. apply H in K. apply pad_in in K as [K|K]; [discriminate|contradiction].
-Qed.
-
-Theorem canon_spec s : kfree s ->
+Theorem canon_spec s :
   canon lics excs s =
   match spec_canon lics excs s with
   | None => Err
@@ -488,8 +503,8 @@ Theorem canon_spec s : kfree s ->
               else if nests_deeper_than limit_sure (spdx_tokens s) then Limit o else Ok o
   end.
 Proof.
-  intros F. rewrite canon_split. rewrite <- spdx_tokens_split.
-  rewrite canon_toks_spec by (auto using tokens_kfree; rewrite spdx_tokens_split; apply split_ws_clean).
+  rewrite canon_split. rewrite <- spdx_tokens_split.
+  rewrite canon_toks_spec by (rewrite spdx_tokens_split; apply split_ws_clean).
   unfold spec_canon, spec_toks. destruct (spdx_tokens_ok lics excs (spdx_tokens s)); [|reflexivity].
   destruct (canon_tokens lics excs false (spdx_tokens s)); reflexivity.
 Qed.
@@ -514,12 +529,12 @@ Lemma final_pass_no_crash lics excs pairs : forall nr al, final_pass lics excs n
 Proof.
   induction pairs as [|[o t] r IH]; intros nr al; cbn [final_pass]; [discriminate|].
   destruct (match nr with [] => false | h :: _ => streq h W_WITH end).
-  - destruct (mem t excs) eqn:M; [|discriminate]. destruct (mem_lookup _ _ M) as (id & ->). apply IH.
+  - destruct (mem t excs) eqn:M; [|discriminate]. destruct (negb (forallb asciib o)); [discriminate|]. destruct (mem_lookup _ _ M) as (id & ->). apply IH.
   - destruct (is_opword t).
     + destruct (streq t w_with && negb al); [discriminate|apply IH].
     + cbv zeta. destruct (prefixb licenseref_lc (if last_is 43 t then removelast t else t)).
       * destruct (ref_match _); [apply IH|discriminate].
-      * destruct (mem _ lics) eqn:M; [|discriminate]. destruct (mem_lookup _ _ M) as (id & ->). apply IH.
+      * destruct (mem _ lics) eqn:M; [|discriminate]. destruct (negb (forallb asciib o)); [discriminate|]. destruct (mem_lookup _ _ M) as (id & ->). apply IH.
 Qed.
 Theorem canon_no_crash lics excs s : canon lics excs s <> Crash.
 Proof.
